@@ -19,6 +19,7 @@ import (
 	"strings"
 	"syscall"
 	"time"
+	"unicode/utf8"
 
 	"github.com/akrennmair/updog"
 	"github.com/akrennmair/updog/internal/convert"
@@ -203,12 +204,20 @@ type BatchQ struct {
 }
 
 type C13Case struct {
-	Data    Dataset     `json:"data"`
-	Cache   bool        `json:"cache"`
-	Preload bool        `json:"preload"`
-	Batches [][]BatchQ  `json:"batches"`
-	Process bool        `json:"process"` // also run the real server child + grpc:// driver
-	Driver  []DrvQuery  `json:"driver,omitempty"`
+	Data    Dataset    `json:"data"`
+	Cache   bool       `json:"cache"`
+	Preload bool       `json:"preload"`
+	Batches [][]BatchQ `json:"batches"`
+	Process bool       `json:"process"` // also run the real server child + grpc:// driver
+	Driver  []DrvQuery `json:"driver,omitempty"`
+	Plan    []DrvStep  `json:"plan,omitempty"` // handle history of the driver tier (absent: one handle, every query once)
+}
+
+// DrvStep is one step of the driver tier: the same step is applied to the grpc:// and to the file: side.
+type DrvStep struct {
+	Op string `json:"op"` // open | close | noidle | query
+	H  int    `json:"h"`  // handle number (0 or 1)
+	Q  int    `json:"q,omitempty"`
 }
 
 func genC13(c *Ctx) any {
@@ -230,9 +239,22 @@ func genC13(c *Ctx) any {
 	}
 	for b, nb := 0, r.Range(2, 6); b < nb; b++ {
 		var batch []BatchQ
-		for i, n := 0, r.Range(0, 12); i < n; i++ {
+		n := r.Range(0, 12)
+		big := r.Chance(1, 12)
+		if big {
+			// long batches: position-dependent tagging, chunked evaluation
+			n = []int{63, 64, 65, 100, 128, 129, 256, 257, 1000}[r.Intn(9)]
+		}
+		for i := 0; i < n; i++ {
 			bq := BatchQ{Q: mk()}
-			switch r.Intn(6) {
+			if big && i%8 != 0 {
+				bq.Q = &Query{Expr: genLeaf(r, si, ExprOpts{})}
+			}
+			idKind := r.Intn(6)
+			if big && r.Chance(3, 4) {
+				idKind = 5 // mostly untagged
+			}
+			switch idKind {
 			case 0:
 				bq.ID = int32(r.Range(1, 5)) // duplicates likely
 			case 1:
@@ -268,11 +290,50 @@ func genC13(c *Ctx) any {
 	}
 	if cs.Process {
 		for i, n := 0, r.Range(3, 8); i < n; i++ {
-			dq := genDrvQuery(r, mk(), []int{0, 400}[r.Intn(2)])
+			dq := genDrvQuery(r, mk(), []int{0, 400, 900}[r.Intn(3)])
 			if r.Chance(1, 3) {
 				dq.Via = "stmt"
+				if len(dq.Args) > 0 && r.Chance(2, 3) {
+					// the same prepared statement again, with other arguments
+					for k, nk := 0, r.Range(1, 3); k < nk; k++ {
+						args := genArgs(r, si, len(dq.Args))
+						for i := range args {
+							if args[i].S != nil && !utf8.ValidString(string(*args[i].S)) {
+								ok := S("v0") // protobuf strings carry nothing but UTF-8
+								args[i].S = &ok
+							}
+						}
+						dq.More = append(dq.More, args)
+					}
+				}
 			}
 			cs.Driver = append(cs.Driver, dq)
+		}
+		if r.Chance(1, 2) {
+			// two handles on the same data source, opened and closed around the queries
+			open := [2]bool{true, false}
+			cs.Plan = append(cs.Plan, DrvStep{Op: "open", H: 0})
+			for qi := range cs.Driver {
+				for k := 0; k < 2; k++ {
+					h := r.Intn(2)
+					switch {
+					case !open[h] && r.Chance(1, 2):
+						cs.Plan, open[h] = append(cs.Plan, DrvStep{Op: "open", H: h}), true
+					case open[h] && open[1-h] && r.Chance(1, 3):
+						cs.Plan, open[h] = append(cs.Plan, DrvStep{Op: "close", H: h}), false
+					case open[h] && r.Chance(1, 6):
+						cs.Plan = append(cs.Plan, DrvStep{Op: "noidle", H: h})
+					}
+				}
+				h := r.Intn(2)
+				if !open[h] {
+					h = 1 - h
+				}
+				cs.Plan = append(cs.Plan, DrvStep{Op: "query", H: h, Q: qi})
+				if open[1-h] && r.Chance(1, 3) {
+					cs.Plan = append(cs.Plan, DrvStep{Op: "query", H: 1 - h, Q: qi})
+				}
+			}
 		}
 	}
 	return cs
@@ -408,34 +469,97 @@ func runC13(c *Ctx, body json.RawMessage) *Verdict {
 		}
 		v.Count("rpc_batches_checked", 1)
 	}
-	gdb, err := sql.Open("updog", "grpc://"+s.addr)
-	if err != nil {
-		return v.Harness("sql.Open grpc: %v", err)
+	var gdbs, fdbs [2]*sql.DB
+	defer func() {
+		for h := 0; h < 2; h++ {
+			if gdbs[h] != nil {
+				gdbs[h].Close()
+			}
+			if fdbs[h] != nil {
+				fdbs[h].Close()
+			}
+		}
+	}()
+	plan := cs.Plan
+	if len(plan) == 0 {
+		plan = []DrvStep{{Op: "open", H: 0}}
+		for qi := range cs.Driver {
+			plan = append(plan, DrvStep{Op: "query", H: 0, Q: qi})
+		}
 	}
-	defer gdb.Close()
-	fdb, err := sql.Open("updog", "file:"+copyPath)
-	if err != nil {
-		return v.Harness("sql.Open file: %v", err)
-	}
-	defer fdb.Close()
-	for qi, dq := range cs.Driver {
-		w := wantFor(ref, dq)
-		og, of := runDB(gdb, dq), runDB(fdb, dq)
+	for si, st := range plan {
+		if st.H < 0 || st.H > 1 || (st.Op == "query" && (st.Q < 0 || st.Q >= len(cs.Driver))) {
+			return Invalid("bad plan step")
+		}
+		switch st.Op {
+		case "open":
+			if gdbs[st.H] != nil {
+				return Invalid("handle opened twice")
+			}
+			var err error
+			if gdbs[st.H], err = sql.Open("updog", "grpc://"+s.addr); err != nil {
+				return v.Harness("sql.Open grpc: %v", err)
+			}
+			if fdbs[st.H], err = sql.Open("updog", "file:"+copyPath); err != nil {
+				return v.Harness("sql.Open file: %v", err)
+			}
+			continue
+		case "close":
+			if gdbs[st.H] == nil {
+				return Invalid("closing a closed handle")
+			}
+			gdbs[st.H].Close()
+			fdbs[st.H].Close()
+			gdbs[st.H], fdbs[st.H] = nil, nil
+			continue
+		case "noidle":
+			if gdbs[st.H] == nil {
+				return Invalid("closed handle")
+			}
+			gdbs[st.H].SetMaxIdleConns(0)
+			fdbs[st.H].SetMaxIdleConns(0)
+			continue
+		case "query":
+		default:
+			return Invalid("unknown plan step")
+		}
+		gdb, fdb := gdbs[st.H], fdbs[st.H]
+		if gdb == nil {
+			return Invalid("query on a closed handle")
+		}
+		qi, dq := st.Q, cs.Driver[st.Q]
+		var ogs, ofs []*sqlOut
+		if dq.Via == "stmt" && len(dq.More) > 0 {
+			ogs, ofs = runSeries(gdb, dq), runSeries(fdb, dq)
+		} else {
+			ogs, ofs = []*sqlOut{runDB(gdb, dq)}, []*sqlOut{runDB(fdb, dq)}
+		}
 		if !s.alive() {
 			return v.Violate("server-died", "the server process exited during driver query %d:\n%s", qi, s.logTail())
 		}
-		if sig, d := compareSQL(w, og); sig != "" {
-			return v.Violate("grpc-dsn-"+sig, "driver query %d %q args %q over grpc://: %s", qi, string(dq.Text), argTexts(dq.Args), d)
-		}
-		if sig, d := compareSQL(w, of); sig != "" {
-			return v.Violate("file-dsn-"+sig, "driver query %d %q over file: %s", qi, string(dq.Text), d)
-		}
-		if (og.Err == "") != (of.Err == "") || fmt.Sprint(og.Cols, og.Types, og.Rows) != fmt.Sprint(of.Cols, of.Types, of.Rows) {
-			if !(w.MayErr) {
-				return v.Violate("dsn-disagreement", "driver query %d %q: grpc:// gave %v/%v/%q, file: gave %v/%v/%q", qi, string(dq.Text), og.Cols, og.Rows, og.Err, of.Cols, of.Rows, of.Err)
+		for k := range ogs {
+			one := dq
+			if k > 0 {
+				if len(dq.More[k-1]) != len(dq.Args) {
+					return Invalid("argument lists of one statement differ in length")
+				}
+				one.Args = dq.More[k-1]
 			}
+			w := wantFor(ref, one)
+			og, of := ogs[k], ofs[k]
+			if sig, d := compareSQL(w, og); sig != "" {
+				return v.Violate("grpc-dsn-"+sig, "plan step %d, driver query %d %q args %q (execution %d of the statement) over grpc://: %s", si, qi, string(one.Text), argTexts(one.Args), k+1, d)
+			}
+			if sig, d := compareSQL(w, of); sig != "" {
+				return v.Violate("file-dsn-"+sig, "plan step %d, driver query %d %q over file: %s", si, qi, string(one.Text), d)
+			}
+			if (og.Err == "") != (of.Err == "") || fmt.Sprint(og.Cols, og.Types, og.Rows) != fmt.Sprint(of.Cols, of.Types, of.Rows) {
+				if !(w.MayErr) {
+					return v.Violate("dsn-disagreement", "driver query %d %q: grpc:// gave %v/%v/%q, file: gave %v/%v/%q", qi, string(one.Text), og.Cols, og.Rows, og.Err, of.Cols, of.Rows, of.Err)
+				}
+			}
+			v.Count("driver_queries_checked", 1)
 		}
-		v.Count("driver_queries_checked", 1)
 	}
 	return v
 }
@@ -473,11 +597,11 @@ type Hostile struct {
 }
 
 type C14Case struct {
-	Data    Dataset   `json:"data"`
-	Cache   bool      `json:"cache"`
-	Preload bool      `json:"preload"`
+	Data    Dataset     `json:"data"`
+	Cache   bool        `json:"cache"`
+	Preload bool        `json:"preload"`
 	Rounds  [][]Hostile `json:"rounds"` // hostile requests between two well-formed probes
-	Probes  []*Query  `json:"probes"`
+	Probes  []*Query    `json:"probes"`
 }
 
 type rawCodec struct{}
@@ -527,10 +651,18 @@ func omissions(r *simrt.Rand, q *Query) []Hostile {
 	walk(root)
 	damaged := []func() *pb.Query_Expression{
 		func() *pb.Query_Expression { return &pb.Query_Expression{} },
-		func() *pb.Query_Expression { return &pb.Query_Expression{Value: &pb.Query_Expression_Eq{Eq: &pb.Query_Expression_Equal{}}} },
-		func() *pb.Query_Expression { return &pb.Query_Expression{Value: &pb.Query_Expression_Not_{Not: &pb.Query_Expression_Not{}}} },
-		func() *pb.Query_Expression { return &pb.Query_Expression{Value: &pb.Query_Expression_And_{And: &pb.Query_Expression_And{}}} },
-		func() *pb.Query_Expression { return &pb.Query_Expression{Value: &pb.Query_Expression_Or_{Or: &pb.Query_Expression_Or{}}} },
+		func() *pb.Query_Expression {
+			return &pb.Query_Expression{Value: &pb.Query_Expression_Eq{Eq: &pb.Query_Expression_Equal{}}}
+		},
+		func() *pb.Query_Expression {
+			return &pb.Query_Expression{Value: &pb.Query_Expression_Not_{Not: &pb.Query_Expression_Not{}}}
+		},
+		func() *pb.Query_Expression {
+			return &pb.Query_Expression{Value: &pb.Query_Expression_And_{And: &pb.Query_Expression_And{}}}
+		},
+		func() *pb.Query_Expression {
+			return &pb.Query_Expression{Value: &pb.Query_Expression_Or_{Or: &pb.Query_Expression_Or{}}}
+		},
 		func() *pb.Query_Expression {
 			return &pb.Query_Expression{Value: &pb.Query_Expression_And_{And: &pb.Query_Expression_And{Exprs: []*pb.Query_Expression{{}, {}}}}}
 		},
